@@ -790,6 +790,10 @@ class Wild(Family):
   elementFormDefault="qualified">
  <xs:element name="known" type="xs:int"/>
  <xs:attribute name="ga" type="xs:int"/>
+ <xs:element name="skiproot"><xs:complexType><xs:sequence>
+   <xs:any namespace="##any" processContents="skip" minOccurs="0" maxOccurs="unbounded"/></xs:sequence></xs:complexType></xs:element>
+ <xs:element name="strictroot"><xs:complexType><xs:sequence>
+   <xs:any namespace="##any" processContents="strict" minOccurs="0" maxOccurs="unbounded"/></xs:sequence></xs:complexType></xs:element>
  <xs:element name="root">
   <xs:complexType><xs:sequence>
     <xs:element name="lax"><xs:complexType><xs:sequence>
@@ -854,6 +858,11 @@ class Wild(Family):
                 'fault:nil'),
             # a DECLARED element at a position where the content model does not admit it, invalid in itself
             Doc('wd-tail-target-bad', D(tail=' <w:known>x</w:known>\n'), 'fault:wildcard', tag='misplaced-child-with-own-errors'),
+            # children of a root whose only particle is a wildcard: skipped whatever they are / found or refused
+            Doc('wd-skiproot-known-bad', _decl() + '<w:skiproot xmlns:w="urn:wd"><w:known>x</w:known><junk/><w:known>2</w:known></w:skiproot>'),
+            Doc('wd-strictroot-unknown', _decl() + '<w:strictroot xmlns:w="urn:wd"><w:known>1</w:known><w:nope/></w:strictroot>',
+                'fault:wildcard'),
+            Doc('wd-strictroot-known-bad', _decl() + '<w:strictroot xmlns:w="urn:wd"><w:known>x</w:known></w:strictroot>', 'fault:lexical'),
             Doc('wd-tail-undeclared-deep-bad', D(tail=' <o:t1/>\n <o:t2><o:d><w:known>x</w:known></o:d><w:known>9</w:known></o:t2>\n'),
                 'fault:lexical'),
         ]
